@@ -46,6 +46,7 @@ type History struct {
 	NoPresenceDoc bool   `json:"nopresencedoc,omitempty"` // the first attacher creates the document with presence disabled
 	LateNoFlag    bool   `json:"latenoflag,omitempty"`    // later attachers do not pass the presenceless flag themselves
 	Late          []int  `json:"late,omitempty"`          // clients that are NOT attached during setup (they attach by an A step)
+	ProbeLWW      bool   `json:"probe_lww,omitempty"`     // at the end every client gets, per restored object member, a remote Set older than the member's position (see probeLWW)
 	Pin           bool   `json:"pin,omitempty"`           // twin run: an extra attached client that never syncs again keeps the minimum version vector at its start, so nothing is ever purged
 }
 
